@@ -687,6 +687,28 @@ func (c *Ctx) SessionLifecycle(prop string) {
 			}
 			ndel++
 			target := a.Ins
+			// the entry the deleted key names: the value read from the table under that very key, or the value of the range
+			// iteration that yields the key (an age test on another entry says nothing about this one)
+			entryOf := map[ssa.Value]bool{}
+			if ex, isEx := a.Key.(*ssa.Extract); isEx && ex.Index == 1 {
+				if nx, isNext := ex.Tuple.(*ssa.Next); isNext {
+					for _, r := range *nx.Referrers() {
+						if e2, ok := r.(*ssa.Extract); ok && e2.Index == 2 {
+							entryOf[e2] = true
+						}
+					}
+				}
+			}
+			for _, acc := range c.tableAccesses(p, F) {
+				if lk, isLk := acc.Ins.(*ssa.Lookup); isLk && lk.Index == a.Key {
+					entryOf[lk] = true
+					for _, r := range *lk.Referrers() {
+						if e2, ok := r.(*ssa.Extract); ok && e2.Index == 0 {
+							entryOf[e2] = true
+						}
+					}
+				}
+			}
 			x, path := an.Cut(an.CutQuery{From: an.Entry(F), Target: func(i ssa.Instruction) bool { return i == target },
 				AcceptEdge: c.WithSummaries(func(at *an.Atom, sub Subst) bool {
 					// timeout < time.Since(start) (either orientation; the timeout may reach a helper as an argument)
@@ -707,10 +729,18 @@ func (c *Ctx) SessionLifecycle(prop string) {
 						return false
 					}
 					_, f, _ := an.FieldOf(sub.Res(tv))
-					return strings.Contains(strings.ToLower(f), "timeout")
+					if !strings.Contains(strings.ToLower(f), "timeout") {
+						return false
+					}
+					// whose age: a field of the entry the deleted key names
+					if len(call.Call.Args) != 1 {
+						return false
+					}
+					_, _, base := an.FieldOf(sub.Res(call.Call.Args[0]))
+					return base != nil && entryOf[sub.Res(base)]
 				})})
 			if x != nil {
-				c.R.Fail(rule4, Fn(F)+":expiry", c.Pos(a.Ins), "the lookup removes a session for a reason other than its age exceeding the configured timeout", "delete only below [time.Since(started) > timeout]", an.PathString(c.Pos, path))
+				c.R.Fail(rule4, Fn(F)+":expiry", c.Pos(a.Ins), "the lookup removes a session for a reason other than its own age exceeding the configured timeout (the age tested must be that of the entry the deleted key names)", "delete(table, k) only below [time.Since(table[k].started) > timeout]", an.PathString(c.Pos, path))
 			} else {
 				c.R.OK(rule4, Fn(F)+":expiry", c.Pos(a.Ins), "expiry: delete only below [time.Since(started) > timeout]")
 			}
